@@ -73,6 +73,9 @@ func safeLoad(workdir string, env map[string]string, docs []namedDoc, opts ...fu
 		if d.Content != "" || d.InMemory {
 			cf.Content = []byte(d.Content)
 		}
+		if d.Config != nil { // an already parsed document, handed to the loader as is
+			cf.Content, cf.Config = nil, d.Config
+		}
 		cfs = append(cfs, cf)
 	}
 	e := types.Mapping{}
@@ -84,9 +87,10 @@ func safeLoad(workdir string, env map[string]string, docs []namedDoc, opts ...fu
 }
 
 type namedDoc struct {
-	Name     string `json:"name"`
-	Content  string `json:"content"`
-	InMemory bool   `json:"in_memory"`
+	Name     string                 `json:"name"`
+	Content  string                 `json:"content"`
+	InMemory bool                   `json:"in_memory"`
+	Config   map[string]interface{} `json:"-"`
 }
 
 // projDump is the canonical deep dump of a project with the fields that only record where it was loaded from cleared.
